@@ -215,10 +215,12 @@ Definition f5_schedule : list act :=
    AWait 0; ACas 0; ADropLis 0].
 
 (* ---------- which machine the source is: read from Gen/Sites.v, i.e. from the source, on every run ---------- *)
-(* both poll functions contain, before their listen() site, a load of the counter followed by event.notify(1) *)
+(* both poll functions contain, before their listen() site, the drop of the listener, a load of the counter and
+   event.notify(1) *)
 Definition has_baton (fname : string) : bool :=
   match fn_shape fname with
-  | Some ((("load"%string, "this.semaphore.count"%string, []) :: ("notify"%string, "this.semaphore.event"%string, ["1"%string]) :: _), _) => true
+  | Some ((("set_none"%string, "*this.listener"%string, []) :: ("load"%string, "this.semaphore.count"%string, []) ::
+           ("notify"%string, "this.semaphore.event"%string, ["1"%string]) :: _), _) => true
   | _ => false
   end.
 Definition gen_baton : bool :=
